@@ -31,7 +31,8 @@
                                              else `params.sequence()` and one `next()` per parameter, `optional_next()` for
                                              the parameters whose declared type is syntactically `Option<..>`;
                                              the first failure answers with its -32602 error object and runs no handler
-     heck 0.5 `transform` (ASCII)            word splitting of to_snake_case / to_lower_camel_case
+     heck 0.5 `transform`                    word splitting of to_snake_case / to_lower_camel_case, char by char; Unicode
+                                             classes and case mappings transcribed for U+0000..U+00FF
    Typed values.  serde's typed (de)serialisation of the argument and result TYPES is a parameter of the model (Section
    Codec): `enc t v` is the JSON value `Serialize` writes (the text is its compact serialisation, Json/JsonSer.v),
    `dec t j` is what `Deserialize` makes of a JSON value.  A typed read of a text is modelled as the strict parse of the
@@ -46,7 +47,8 @@
        differential run;
      - a `Serialize` impl that fails (the stub panics, as documented), `with_extensions`, generics/bounds, doc attributes,
        `deprecated`, the compile-time checks (duplicate names, `__RpcParams__`);
-     - non-ASCII parameter names in the heck transcription (bytes >= 0x80 are treated as caseless alphanumerics);
+     - parameter names with chars from U+0100 on in the heck transcription (treated as caseless alphanumerics; Unicode
+       classes and case mappings are transcribed for ASCII and the Latin-1 Supplement only);
      - serde's leniency on by-name calls beyond the strict JSON parse: unknown members are skipped by serde without
        interpreting them (lone surrogate escapes and nesting deeper than the recursion limit pass there), here the whole
        object is read by the strict parser; which serde message the -32602 error object carries in `data`;
@@ -63,20 +65,93 @@ From JV Require Model.Params Model.Builder Model.Wire Model.Registry.
 From JV Require Gen.ErrorConstsGen.     (* the library's messages and codes, regenerated from types/src/error.rs *)
 Local Open Scope N_scope.
 
-(* ================================================================ 1. heck 0.5: snake_case / lowerCamelCase (ASCII) *)
+(* ================================================================ 1. heck 0.5: snake_case / lowerCamelCase *)
 
+(* heck works on `char`s.  A name (a Rust String: valid UTF-8) is cut into the UTF-8 sequences of its chars: a byte together
+   with the continuation bytes (10xxxxxx) that follow it.  The Unicode classes and case mappings heck asks for
+   (char::is_alphanumeric / is_lowercase / is_uppercase / to_lowercase / to_uppercase) are transcribed for U+0000..U+00FF
+   (ASCII and the Latin-1 Supplement, incl. the mappings that leave the block or one char: U+00B5 MICRO SIGN -> U+039C, U+00DF
+   sharp s -> "SS", U+00FF -> U+0178); every char from U+0100 on is taken for a caseless alphanumeric. *)
 Definition is_lower (c : byte) : bool := in_range 97 122 c.
 Definition is_upper (c : byte) : bool := in_range 65 90 c.
-(* char::is_alphanumeric; every byte of a non-ASCII char is counted as a caseless alphanumeric *)
-Definition is_alnum (c : byte) : bool := is_lower c || is_upper c || is_digit c || (128 <=? bN c).
 Definition to_lower (c : byte) : byte := if is_upper c then Nb (bN c + 32) else c.
 Definition to_upper (c : byte) : byte := if is_lower c then Nb (bN c - 32) else c.
 
+Definition uchar := bytes.                   (* the UTF-8 sequence of one char *)
+
+Fixpoint utf8_chars (s : bytes) : list uchar :=
+  match s with
+  | [] => []
+  | b :: s' =>
+    match utf8_chars s' with
+    | (c0 :: crest) :: rs => if is_cont c0 then (b :: c0 :: crest) :: rs else [b] :: (c0 :: crest) :: rs
+    | r => [b] :: r
+    end
+  end.
+
+(* the code point of a char of U+0080..U+00FF: C2 80..BF, C3 80..BF *)
+Definition latin1 (ch : uchar) : option N :=
+  match ch with
+  | [a; b] => if bN a =? 194 then Some (bN b) else if bN a =? 195 then Some (bN b + 64) else None
+  | _ => None
+  end.
+
+(* Lowercase: a-z; U+00AA, U+00B5, U+00BA, U+00DF..U+00FF without U+00F7 *)
+Definition ch_is_lower (ch : uchar) : bool :=
+  match ch with
+  | [c] => is_lower c
+  | _ => match latin1 ch with
+         | Some n => (n =? 170) || (n =? 181) || (n =? 186) || ((223 <=? n) && (n <=? 255) && negb (n =? 247))
+         | None => false
+         end
+  end.
+(* Uppercase: A-Z; U+00C0..U+00DE without U+00D7 *)
+Definition ch_is_upper (ch : uchar) : bool :=
+  match ch with
+  | [c] => is_upper c
+  | _ => match latin1 ch with
+         | Some n => (192 <=? n) && (n <=? 222) && negb (n =? 215)
+         | None => false
+         end
+  end.
+(* Alphabetic or Numeric: ASCII letters and digits; U+00AA, U+00B2, U+00B3, U+00B5, U+00B9, U+00BA, U+00BC..U+00BE,
+   U+00C0..U+00FF without U+00D7 and U+00F7; (not transcribed: from U+0100 on every char; a stray byte >= 0x80) *)
+Definition ch_is_alnum (ch : uchar) : bool :=
+  match ch with
+  | [c] => is_lower c || is_upper c || is_digit c || (128 <=? bN c)
+  | _ => match latin1 ch with
+         | Some n => (n =? 170) || (n =? 178) || (n =? 179) || (n =? 181) || (n =? 185) || (n =? 186) ||
+                     ((188 <=? n) && (n <=? 190)) || ((192 <=? n) && negb (n =? 215) && negb (n =? 247))
+         | None => true
+         end
+  end.
+Definition ch_to_lower (ch : uchar) : bytes :=
+  match ch with
+  | [c] => [to_lower c]
+  | _ => match latin1 ch with
+         | Some n => if ch_is_upper ch then utf8_encode (n + 32) else ch
+         | None => ch
+         end
+  end.
+Definition ch_to_upper (ch : uchar) : bytes :=
+  match ch with
+  | [c] => [to_upper c]
+  | _ => match latin1 ch with
+         | Some n =>
+           if n =? 181 then utf8_encode 924                          (* U+00B5 -> U+039C GREEK CAPITAL LETTER MU *)
+           else if n =? 223 then [x53; x53]                          (* U+00DF -> "SS" *)
+           else if n =? 255 then utf8_encode 376                     (* U+00FF -> U+0178 *)
+           else if (224 <=? n) && (n <=? 254) && negb (n =? 247) then utf8_encode (n - 32)
+           else ch
+         | None => ch
+         end
+  end.
+
 (* s.split(|c| !c.is_alphanumeric()) ; cur = the piece being collected, reversed *)
-Fixpoint split_alnum (cur : bytes) (s : bytes) : list bytes :=
+Fixpoint split_alnum (cur : list uchar) (s : list uchar) : list (list uchar) :=
   match s with
   | [] => [rev cur]
-  | c :: s' => if is_alnum c then split_alnum (c :: cur) s' else rev cur :: split_alnum [] s'
+  | c :: s' => if ch_is_alnum c then split_alnum (c :: cur) s' else rev cur :: split_alnum [] s'
   end.
 
 Inductive wmode := WBoundary | WLower | WUpper.
@@ -85,27 +160,28 @@ Definition wmode_eqb (a b : wmode) : bool :=
 
 (* the `while let Some((i, c)) = char_indices.next()` loop over one piece: the words it hands to with_word.
    cur = word[init..i] reversed *)
-Fixpoint split_word (mode : wmode) (cur : bytes) (w : bytes) : list bytes :=
+Fixpoint split_word (mode : wmode) (cur : list uchar) (w : list uchar) : list (list uchar) :=
   match w with
   | [] => []                                             (* an empty piece: the loop body never runs *)
   | c :: rest =>
     match rest with
     | [] => [rev (c :: cur)]                             (* "Collect trailing characters as a word" *)
     | next :: _ =>
-      let next_mode := if is_lower c then WLower else if is_upper c then WUpper else mode in
-      if wmode_eqb next_mode WLower && is_upper next then
+      let next_mode := if ch_is_lower c then WLower else if ch_is_upper c then WUpper else mode in
+      if wmode_eqb next_mode WLower && ch_is_upper next then
         rev (c :: cur) :: split_word WBoundary [] rest   (* boundary after c *)
-      else if wmode_eqb mode WUpper && is_upper c && is_lower next then
+      else if wmode_eqb mode WUpper && ch_is_upper c && ch_is_lower next then
         rev cur :: split_word WBoundary [c] rest         (* boundary before c *)
       else split_word next_mode (c :: cur) rest
     end
   end.
 
-Definition heck_words (s : bytes) : list bytes := flat_map (split_word WBoundary []) (split_alnum [] s).
+Definition heck_words (s : bytes) : list (list uchar) := flat_map (split_word WBoundary []) (split_alnum [] (utf8_chars s)).
 
-Definition lowercase (w : bytes) : bytes := map to_lower w.
-Definition capitalize (w : bytes) : bytes :=
-  match w with [] => [] | c :: r => to_upper c :: lowercase r end.
+(* heck's lowercase / capitalize of a word (its final-sigma rule concerns U+03A3, outside the transcribed range) *)
+Definition lowercase (w : list uchar) : bytes := concat (map ch_to_lower w).
+Definition capitalize (w : list uchar) : bytes :=
+  match w with [] => [] | c :: r => ch_to_upper c ++ lowercase r end.
 
 (* transform(s, lowercase, |f| write!(f, "_")) *)
 Definition snake_case (s : bytes) : bytes := join [x5f] (map lowercase (heck_words s)).
